@@ -149,6 +149,9 @@ func (p *Proc) RawCount(iid int) int {
 	return int(r.N)
 }
 
+// Plan arranges a crash relative to the child's current write counts: "meta:+1:before" etc.
+func (p *Proc) Plan(spec string) { p.call(Req{Op: "plan", U: spec}) }
+
 func (p *Proc) Sleep(ms int) { p.call(Req{Op: "sleep", Ms: ms}) }
 
 // Quit shuts the child down cleanly (datastore.Shutdown, storage.Shutdown).
